@@ -222,6 +222,10 @@ func c11(r *core.Run) {
 	r.Rule("E3", "existence is read, not assumed (badgerstore): in the transaction bodies of Update and Delete every database write is preceded on all paths by a read of the key (a call reaching Txn.Get) or by the edge on which the transaction's cached value is non-nil; the database itself accepts writes and deletes of missing keys", 2)
 	r.Rule("E4", "per-id operations are exact (badgerstore): no method of the read / write transaction (nor its private helpers and closures) opens an iterator or applies a prefix test; existence and values come from Txn.Get on the transaction's own key", 6)
 	r.Rule("K3", "a transaction's key is its own memory (shared with C16.O4): no key is built by appending to a slice kept in the store (append(st.prefixBytes, id...) handed to the transaction) - with spare capacity in that slice every open transaction's key is the same backing array, and opening a second transaction rewrites the key of the first: it then reads, writes and deletes another id's value while holding its own id's lock", 2)
+	r.Rule("K6", "one lock table for all transactions (shared with C16.D4): no field of the badger store is written on a path transactions reach - a lock table allocated lazily in Read / Write can be allocated twice by the first two concurrent transactions, which then hold the same id in different tables", 6)
+	c16StoreConfigFrozen(r, "K6")
+	r.Rule("K5", "a read returns what is stored (shared with C13.K10): the reflected decode target of stored bytes is made by reflect.New in the call that decodes", 1)
+	c13DecodeTargetFresh(r, "K5", "store/badgerstore")
 	r.Rule("K4", "what a transaction writes is what it was given (shared with C20.I2): the bytes handed to Txn.Set are not backed by a pooled buffer that is released before the commit - a concurrent mutation of another id (not excluded by the per-id lock) would refill it, and this transaction then stores, and reads back, the other id's value", 2)
 	storedBytesNotPooled(r, "K4", []string{"store/badgerstore"})
 	r.Rule("E2", "empty id: Create tests the transaction id against \"\" before any write and on that edge returns an error or installs a generated id", 2)
@@ -611,6 +615,7 @@ func c11(r *core.Run) {
 	}
 
 	c11ReadErrorAborts(r, "E3")
+	c11DuplicateDecidedByRawRead(r, "E1")
 	// ---- E3 (badgerstore) ----------------------------------------------------
 	// BadgerDB's Delete / Set succeed on a missing key: the not-found answer of Update / Delete comes
 	// from the read that precedes the write. Typestate in the transaction body: "existence known"
@@ -1748,4 +1753,69 @@ func storedFrom(v, w ssa.Value) bool {
 		}
 	}
 	return false
+}
+
+// c11DuplicateDecidedByRawRead: badgerstore's Create answers "duplicate"
+// exactly when the key holds bytes: every return of the duplicate sentinel
+// lies on the err == nil edge of a Txn.Get, and every database write of Create
+// on an edge where such a read failed. A test through the decoding read
+// (Exists / Value) takes an id whose stored bytes do not decode into the
+// current type for free, and Create overwrites it.
+func c11DuplicateDecidedByRawRead(r *core.Run, rule string) {
+	p := r.P
+	rel := "store/badgerstore"
+	m := methodNamed(p, rel, "writeTxn", "Create")
+	if m == nil {
+		r.Unres(rule, rel+".writeTxn.Create", "missing")
+		return
+	}
+	isGetErr := func(v ssa.Value) bool {
+		ex, ok := core.Strip(v).(*ssa.Extract)
+		if !ok {
+			return false
+		}
+		c, ok := ex.Tuple.(*ssa.Call)
+		return ok && isBadgerCall(c, "Txn", "Get") && types.TypeString(ex.Type(), nil) == "error"
+	}
+	onRawEdge := func(in ssa.Instruction, wantNil bool) bool {
+		for _, ed := range dominatingEdges(in) {
+			for _, ft := range edgeFacts(ed) {
+				ci := core.Cond(ft.V)
+				if ci.Kind != "nilcmp" || !(isGetErr(ci.X)) {
+					continue
+				}
+				isNil := (ci.Op == token.EQL) == ft.True
+				if ci.Negate {
+					isNil = !isNil
+				}
+				if isNil == wantNil {
+					return true
+				}
+			}
+		}
+		return false
+	}
+	nDup := 0
+	for _, f2 := range p.Scope(m) {
+		if f2.Pkg != m.Pkg {
+			continue
+		}
+		for _, ret := range core.Returns(f2) {
+			for _, rv := range ret.Results {
+				for _, src := range phiSources(rv) {
+					if g, ok := loadedGlobal(src.V); ok && g == "ErrDuplicate" {
+						nDup++
+						at := ssa.Instruction(ret)
+						if src.Pred != nil {
+							at = src.Pred.Instrs[len(src.Pred.Instrs)-1]
+						}
+						r.Check(onRawEdge(at, true), rule, core.FuncName(f2), "duplicate-decided-by-Txn.Get", p.InstrPos(ret), "the duplicate sentinel is returned on the edge where Txn.Get found the key", "the duplicate answer does not come from the raw read of the key (Txn.Get err == nil) but from something else - a decoding read reports \"absent\" for stored bytes that do not fit the current type, and Create then overwrites the value, runs the listeners with before == nil and reports success")
+					}
+				}
+			}
+		}
+	}
+	if nDup == 0 {
+		r.Bad(rule, core.FuncName(m), "duplicate-decided-by-Txn.Get", p.Pos(m.Pos()), "Create never returns the duplicate sentinel")
+	}
 }
